@@ -10,6 +10,7 @@ import (
 	"io"
 	"os"
 	"os/exec"
+	"os/signal"
 	"path/filepath"
 	"strconv"
 	"strings"
@@ -59,6 +60,17 @@ func childMain(mode string) {
 	switch mode {
 	case "once":
 		b := loadBundle(os.Getenv("VH_C14_BUNDLE"), true)
+		if v := os.Getenv("VH_C14_FSIZE"); v != "" {
+			// fault injection below os.File: no file of this process may grow beyond n bytes, so the
+			// write(2) inside WriteFile moves n bytes and then fails with EFBIG (SIGXFSZ ignored)
+			n, _ := strconv.ParseUint(v, 10, 64)
+			signal.Ignore(syscall.SIGXFSZ)
+			lim := syscall.Rlimit{Cur: n, Max: n}
+			if err := syscall.Setrlimit(syscall.RLIMIT_FSIZE, &lim); err != nil {
+				fmt.Println("ERR", err)
+				os.Exit(3)
+			}
+		}
 		if os.Getenv("VERIF_HOOK_DIR") == "" {
 			verifbridge.SetWriteFileHook(func(point, path string) {
 				out.WriteString("H " + point + " " + path + "\n")
@@ -496,5 +508,77 @@ func (g *gen) pipeSchedules() {
 		g.emit(id, "proc-stepped", false, writers, tmps, sched, points, reads, root, true, "writers are child processes held at the hook points through named pipes and killed at the end of the schedule")
 		os.RemoveAll(root)
 		os.RemoveAll(hookDir)
+	}
+}
+
+// ---------- family 8: write(2) fails inside WriteFile ----------
+
+// writeFaults: a writer child process whose files may not grow beyond n bytes (RLIMIT_FSIZE; n = 0, 1,
+// half, all but one byte of the entry): Write moves n bytes into the temporary file and fails, the error
+// path of WriteFile at the open stage (the model's EFail at POpen) runs. Free-running case: the history
+// (an optional complete earlier Set, the failing Set and its return, two reads) is judged by the oracle -
+// a read must be a miss or a complete bundle, a key-shaped entry of the listing complete.
+func (g *gen) writeFaults() {
+	e := g.e
+	reps := 1
+	if g.a.Tier == "thorough" {
+		reps = 25
+	}
+	for rep := 0; rep < reps; rep++ {
+		for _, pre := range []bool{false, true} {
+			for frac := 0; frac < 4; frac++ {
+				id, want := g.next()
+				if !want {
+					continue
+				}
+				r := g.rng.Fork(uint64(id))
+				u := e.urls[r.Intn(2)]
+				root := e.newRoot()
+				fc, err := crl.NewFileCache(root)
+				if err != nil {
+					panic(err)
+				}
+				perm := []int{0, 1, 2, 3, 4}
+				Shuffle(r, perm)
+				var writers []wspec
+				var sched []sev
+				if pre {
+					b := e.small[perm[0]]
+					writers = append(writers, wspec{u, b})
+					ok := fc.Set(context.Background(), u, b.B) == nil
+					sched = append(sched, sev{Kind: "S", Idx: 0}, sev{Kind: "T", Idx: 0, OK: ok})
+				}
+				wi := len(writers)
+				b := e.small[perm[1]]
+				writers = append(writers, wspec{u, b})
+				n := len(b.Ref)
+				limit := []int{0, 1, n / 2, n - 1}[frac]
+				sched = append(sched, sev{Kind: "S", Idx: wi})
+				cmd := g.childCmd("once", root, u, b, fmt.Sprintf("VH_C14_FSIZE=%d", limit))
+				outp, _ := cmd.Output()
+				ret := ""
+				for _, line := range strings.Split(string(outp), "\n") {
+					f := strings.SplitN(line, " ", 3)
+					if f[0] == "RET" && len(f) > 1 {
+						ret = "err"
+						if f[1] == "ok" {
+							ret = "ok"
+						}
+					}
+				}
+				if ret != "" {
+					sched = append(sched, sev{Kind: "T", Idx: wi, OK: ret == "ok"})
+				}
+				var reads []readObs
+				for k, ru := range []string{u, e.urls[2]} {
+					sched = append(sched, sev{Kind: "B", Idx: k, URL: ru}, sev{Kind: "E", Idx: k})
+					reads = append(reads, readObs{Reader: k, URL: ru, Res: e.get(fc, ru)})
+				}
+				g.emit(id, "proc-write-fault", true, writers, nil, sched, nil, reads, root, ret == "err",
+					fmt.Sprintf("a child process storing a %d-byte entry under RLIMIT_FSIZE=%d (write(2) moves %d bytes, then fails with EFBIG): Set returned %q; earlier complete Set for the URL: %v", n, limit, limit, ret, pre))
+				g.w.Count("write_fault_ret", ret)
+				os.RemoveAll(root)
+			}
+		}
 	}
 }
